@@ -1,4 +1,7 @@
 import SeaQ.Lemmas.DdlCtx
+import SeaQ.Model.Affinity
+import SeaQ.Props.C13
+import SeaQ.Props.C14
 /-!
 # Schema statements (shared by C13 and C14)
 
@@ -114,18 +117,18 @@ theorem sqlite_specs_skip (s : Spec) (r : List Spec) (h : s.isPk = true ∨ s.is
   rcases h with h | h | h <;> simp [rSpecs, h]
 
 /-- SQLite: an auto-increment column of any integer type that can be one is declared exactly `integer`
-(so that `INTEGER PRIMARY KEY` makes it the rowid alias `AUTOINCREMENT` requires) -/
+(so that `INTEGER PRIMARY KEY` makes it the rowid alias `AUTOINCREMENT` requires) — over the regenerated table -/
 theorem sqlite_autoincrement_integer (specs : List Spec) (t : ColType) (ha : hasAuto specs = true)
     (ht : t = .integer ∨ t = .unsigned ∨ t = .bigInteger ∨ t = .bigUnsigned) :
     rType .sqlite specs t = [S "integer"] := by
-  rcases ht with h | h | h | h <;> subst h <;> simp [rType, rTypeSqlite, ha]
+  rcases ht with h | h | h | h <;> subst h <;> simp only [rType, ha] <;> decide
 
-/-- Postgres: an auto-increment column is declared with the serial type of its integer type, and the
-specification itself writes nothing -/
+/-- Postgres: an auto-increment column is declared with the serial type of its integer type (regenerated
+table `postgresSerial`), and the specification itself writes nothing -/
 theorem postgres_autoincrement_serial (specs : List Spec) (ha : hasAuto specs = true) :
     rType .postgres specs .smallInteger = [S "smallserial"] ∧ rType .postgres specs .integer = [S "serial"] ∧
       rType .postgres specs .bigInteger = [S "bigserial"] := by
-  simp [rType, ha, rSerial]
+  simp only [rType, ha]; decide
 
 theorem postgres_auto_not_written (r : List Spec) : rSpecs .postgres (.autoIncrement :: r) = rSpecs .postgres r := by
   simp [rSpecs, Spec.isAuto]
@@ -135,7 +138,101 @@ theorem mysql_unsigned (t u : ColType)
     (h : (t, u) = (.tinyInteger, .tinyUnsigned) ∨ (t, u) = (.smallInteger, .smallUnsigned) ∨ (t, u) = (.integer, .unsigned) ∨
       (t, u) = (.bigInteger, .bigUnsigned)) :
     rTypeMysql u = rTypeMysql t ++ [S " ", S "UNSIGNED"] := by
-  rcases h with h | h | h | h <;> (cases h; rfl)
+  rcases h with h | h | h | h <;> (cases h; decide)
+
+/-! ## the type names are the regenerated ones -/
+
+theorem natText_eq (n : Nat) : SeaQ.Affinity.natText n = SeaQ.Render.natText n := by
+  induction n using Nat.strongRecOn with
+  | _ n ih =>
+    unfold SeaQ.Affinity.natText SeaQ.Render.natText
+    split
+    · rfl
+    · rename_i h; rw [ih (n / 10) (by omega)]; rfl
+
+open SeaQ.Gen.ColTypes in
+/-- the text of a template written as pieces is its instantiation (`Affinity.instantiate`: the object of the
+C13 affinity theorem and of the C14 type-mapping theorems) -/
+theorem textI_segPieces (d : Backend) (ρ : String → Nat) : ∀ (t : List Seg), textI d (segPieces ρ t) = SeaQ.Affinity.instantiate ρ t := by
+  intro t
+  induction t with
+  | nil => rfl
+  | cons x r ih => cases x <;> simp [segPieces, textI, SeaQ.Affinity.instantiate, ih, S, num, natText_eq]
+
+open SeaQ.Gen.ColTypes in
+/-- whatever `fromTable` writes is an instance of a text of the variant's arm in the regenerated table -/
+theorem fromTable_instance (d : Backend) (table : List Arm) (v : String) (i : Nat) (ρ : String → Nat)
+    (h : (fromTable table v i ρ).contains .bad = false) :
+    ∃ arm ∈ table, v ∈ arm.variants ∧ ∃ t ∈ arm.templates, textI d (fromTable table v i ρ) = SeaQ.Affinity.instantiate ρ t := by
+  unfold fromTable at h ⊢
+  cases hf : findArm table v with
+  | none => simp [hf] at h
+  | some a =>
+    have hfa := List.find?_some hf
+    cases hg : a.templates[i]? with
+    | none => simp [hf, hg] at h
+    | some t =>
+      refine ⟨a, List.mem_of_find?_eq_some hf, by simpa using hfa, t, List.mem_of_getElem? hg, ?_⟩
+      simp only [hg, textI_segPieces]
+
+/-- **C13 at statement level**: the type name a SQLite column definition carries has the affinity intended for the
+abstract type, whatever its parameters and whether or not the column is auto-increment (model rendering →
+regenerated table → `affinity_intended`) -/
+theorem sqlite_column_type_affinity (isAuto : Bool) (t : ColType) (a : SeaQ.Affinity.Aff)
+    (ha : SeaQ.Affinity.intended (variantName t) = some a) (hb : (rTypeSqlite isAuto t).contains .bad = false) :
+    SeaQ.Affinity.affinity (textI .sqlite (rTypeSqlite isAuto t)) = a := by
+  have key : ∀ (v : String) (i : Nat) (ρ : String → Nat), SeaQ.Affinity.intended v = some a →
+      (fromTable SeaQ.Gen.ColTypes.sqlite v i ρ).contains .bad = false →
+      SeaQ.Affinity.affinity (textI .sqlite (fromTable SeaQ.Gen.ColTypes.sqlite v i ρ)) = a := by
+    intro v i ρ hv hbad
+    obtain ⟨arm, harm, hva, tpl, htpl, htxt⟩ := fromTable_instance .sqlite _ v i ρ hbad
+    rw [htxt]
+    exact SeaQ.Props.C13.affinity_intended arm harm v hva a hv tpl htpl ρ
+  cases t
+  case custom s => simp [variantName, SeaQ.Affinity.intended] at ha
+  case decimal p =>
+    cases p with
+    | none => simp only [rTypeSqlite] at hb ⊢; exact key _ _ _ ha hb
+    | some q =>
+      obtain ⟨x, y⟩ := q
+      simp only [rTypeSqlite] at hb ⊢
+      split at hb
+      · simp at hb
+      · rename_i hgt; simp only [hgt, ↓reduceIte]; exact key _ _ _ ha hb
+  all_goals (simp only [rTypeSqlite] at hb ⊢; exact key _ _ _ ha hb)
+
+/-- **C14 at statement level**: every type name Postgres is given that comes from a non-computed arm is a
+defined type in a defined form (`templateOK postgresDefined`), with its parameters as decimal digits -/
+theorem postgres_column_type_defined (v : String) (i : Nat) (ρ : String → Nat)
+    (hb : (fromTable SeaQ.Gen.ColTypes.postgres v i ρ).contains .bad = false) :
+    ∃ arm ∈ SeaQ.Gen.ColTypes.postgres, v ∈ arm.variants ∧ ∃ tpl ∈ arm.templates,
+      textI .postgres (fromTable SeaQ.Gen.ColTypes.postgres v i ρ) = SeaQ.Affinity.instantiate ρ tpl ∧
+      (arm.computed = true ∨ SeaQ.Props.C14.templateOK SeaQ.Props.C14.postgresDefined tpl = true) := by
+  obtain ⟨arm, harm, hva, tpl, htpl, htxt⟩ := fromTable_instance .postgres _ v i ρ hb
+  refine ⟨arm, harm, hva, tpl, htpl, htxt, ?_⟩
+  have hok := List.all_eq_true.mp SeaQ.Props.C14.postgres_types_defined arm harm
+  simp only [SeaQ.Props.C14.armOK, Bool.or_eq_true, List.any_eq_true, List.contains_nil, Bool.false_eq_true, and_false, exists_false, or_false] at hok
+  cases hok with
+  | inl h => exact Or.inl h
+  | inr h => exact Or.inr (List.all_eq_true.mp h tpl htpl)
+
+/-- the same for MySQL, except the `Interval` arm (recorded finding: it writes `unsupported`) -/
+theorem mysql_column_type_defined (v : String) (i : Nat) (ρ : String → Nat)
+    (hb : (fromTable SeaQ.Gen.ColTypes.mysql v i ρ).contains .bad = false) :
+    ∃ arm ∈ SeaQ.Gen.ColTypes.mysql, v ∈ arm.variants ∧ ∃ tpl ∈ arm.templates,
+      textI .mysql (fromTable SeaQ.Gen.ColTypes.mysql v i ρ) = SeaQ.Affinity.instantiate ρ tpl ∧
+      (arm.computed = true ∨ arm.variants.contains "Interval" = true ∨ SeaQ.Props.C14.templateOK SeaQ.Props.C14.mysqlDefined tpl = true) := by
+  obtain ⟨arm, harm, hva, tpl, htpl, htxt⟩ := fromTable_instance .mysql _ v i ρ hb
+  refine ⟨arm, harm, hva, tpl, htpl, htxt, ?_⟩
+  have hok := List.all_eq_true.mp SeaQ.Props.C14.mysql_types_defined_partial arm harm
+  simp only [SeaQ.Props.C14.armOK, Bool.or_eq_true, List.any_eq_true] at hok
+  rcases hok with (h | h) | h
+  · exact Or.inl h
+  · obtain ⟨x, hx, hx2⟩ := h
+    have : x = "Interval" := by simpa using hx2
+    subst this
+    exact Or.inr (Or.inl (by simpa using hx))
+  · exact Or.inr (Or.inr (List.all_eq_true.mp h tpl htpl))
 
 /-- every specification MySQL is given is written, in the order given, each after one space -/
 theorem mysql_specs_all (l : List Spec) : rSpecs .mysql l = l.flatMap (fun s => [S " "] ++ rSpec .mysql s) := by
